@@ -583,6 +583,7 @@ def run_two_sources(params, known):
     from .. import env as _env
     _env.load_bp()
     from bp.app.bpsec import SecAssociation, SecOperation
+    import itertools
     from .c05 import impl_container
     violations = []
     kinds = set()
@@ -598,9 +599,9 @@ def run_two_sources(params, known):
         violations.append(v)
     ivs = [bytes(range(12)), bytes(range(20, 32))]
     ext_plain = b'secret-extension-data'
-    for length in (0, 16, 300):
+    for (length, crc) in itertools.product((0, 16, 300), (0, 1, 2)):
         count += 1
-        case = dict(payload_octets=length)
+        case = dict(payload_octets=length, payload_block_crc_type=crc)
         plain = plaintext(length)
         # the source: encrypts the extension block only
         src = BpWorld(dict(node_id=SRC, tx_routes=[('.*', 'dtn://gw/', None)]))
@@ -608,7 +609,9 @@ def run_two_sources(params, known):
         cose.sym_key_store[KID] = sym_key(KEY, ['EncryptOp', 'DecryptOp'], 'A256GCM')
         cose.sec_assoc.append(SecAssociation(src_pat=re.compile(re.escape(SRC) + '.*'), dst_pat=re.compile('.*'), tgt_blk_types=[195],
                                              templates=[SecOperation(sec_type='bcb', role='source', priv_key_id=KID, content_iv=list(ivs))]))
-        src.send(impl_container(plain_bundle(length, True)))
+        bundle = plain_bundle(length, True)
+        bundle['blocks'][-1]['crc_type'] = crc       # the block the gateway will encrypt carries a CRC of its own
+        src.send(impl_container(bundle))
         src.quiesce()
         if len(src.sent()) != 1 or src.escaped or src.api_errors:
             viol('source-cannot-apply-confidentiality-block', repr((len(src.sent()), src.escaped[:1], src.api_errors[:1])), case)
@@ -623,7 +626,7 @@ def run_two_sources(params, known):
         gw.receive(hop1)
         gw.quiesce()
         out = [o for o in gw.sent() if not B.decode(o)['primary']['flags'] & B.FLAG_ADMIN]
-        keys.add('two-sources/%d' % length)
+        keys.add('two-sources/%d/%d' % (length, crc))
         if gw.escaped or gw.api_errors or len(out) != 1:
             viol('gateway-does-not-forward-one-bundle', repr((len(out), gw.escaped[:1], gw.api_errors[:1])), case)
             continue
